@@ -239,6 +239,9 @@ func injectAttribute(tag string, fv reflect.Value, ft reflect.StructField, prefi
 	switch fv.Kind() {
 	case reflect.Uint, reflect.Uint8, reflect.Uint16, reflect.Uint32, reflect.Uint64:
 		u, err := strconv.ParseUint(val, 0, 0)
+		if err == nil && fv.OverflowUint(u) {
+			err = errutil.Explain(nil, "value %s overflows %s", val, ft.Type.String())
+		}
 		if err == nil {
 			fv.SetUint(u)
 			return nil
@@ -246,6 +249,9 @@ func injectAttribute(tag string, fv reflect.Value, ft reflect.StructField, prefi
 		return errutil.Stack(err, "inject struct field %s error", ft.Name)
 	case reflect.Int, reflect.Int8, reflect.Int16, reflect.Int32, reflect.Int64:
 		i, err := strconv.ParseInt(val, 0, 0)
+		if err == nil && fv.OverflowInt(i) {
+			err = errutil.Explain(nil, "value %s overflows %s", val, ft.Type.String())
+		}
 		if err == nil {
 			fv.SetInt(i)
 			return nil
@@ -253,6 +259,9 @@ func injectAttribute(tag string, fv reflect.Value, ft reflect.StructField, prefi
 		return errutil.Stack(err, "inject struct field %s error", ft.Name)
 	case reflect.Float32, reflect.Float64:
 		f, err := strconv.ParseFloat(val, 64)
+		if err == nil && fv.OverflowFloat(f) {
+			err = errutil.Explain(nil, "value %s overflows %s", val, ft.Type.String())
+		}
 		if err == nil {
 			fv.SetFloat(f)
 			return nil
